@@ -5,6 +5,7 @@ of primitive-argument positions.  `ans` and (in a VJP) `g` have the support of a
 arguments.  None = TOP (unknown)."""
 from .. import facts
 from ..terms import walk,  T
+from ..model import norm_text
 from .common import base_name, callee_ref, construct_of, is_numpy_callable, project, resolve_callee
 
 TOP = None
@@ -633,3 +634,79 @@ def einsum_sublist_target(ctx, world):
             else:
                 ctx.fail("A3.einsum", inst, "vjp:numpy.einsum|sublist-target", e.loc, f"the adjoint einsum writes its result in the layout of `{str(last)[:50]}` but unbroadcast_einsum is told the layout `{str(S)[:50]}`: the Ellipsis (broadcast) axes are summed at the wrong position", "np.einsum(A, [..., 0, 1], B, [..., 1, 2], [0, 2, ...]) with A of shape (2, 3) and B of shape (5, 3, 4): the gradient for A has shape (5, 2)")
     ctx.floor("A3.einsum list-format adjoint", n, 1)
+
+
+def rank_alignment(ctx, world, modes=("vjp", "jvp")):
+    """A3.rank - NumPy aligns the shapes of broadcast operands from the RIGHT.  A rule that pairs the entries of two
+    shapes with zip(shape(a), shape(b)) pairs them from the left: right only when both have the same rank.  Unless
+    the rule establishes equal ranks (an assert / raising guard on len() or ndim) or aligns explicitly (reversed(..),
+    a slice of one shape), the pairing is off by the rank difference - exactly in the configurations with prepended
+    axes."""
+    from ..kfun import same
+    from ..terms import walk
+    from ..tutil import expand
+
+    ctx.describe("A3.rank", "a rule that pairs the entries of the shapes of two different arrays with zip(...) either establishes that both have the same rank (assert / raising guard comparing len() or ndim of the two) or aligns them from the right (reversed(...), a slice taken from the end): zip alone aligns from the left, NumPy broadcasting from the right")
+
+    def shape_of(t):
+        """the array whose shape the term is, or None"""
+        while t.op == "seq":
+            t = t.value
+        if t.op == "attr" and t.name == "shape":
+            o = t.obj
+            if o.op == "call":
+                r, _ = resolve_callee(world.ev, o)
+                if r is not None and r.qual.endswith(".vspace") and o.args:
+                    return o.args[0]
+            return o
+        if t.op == "call" and len(t.args) == 1:
+            r, _ = resolve_callee(world.ev, t)
+            if r is not None and is_numpy_callable(r) and base_name(r) == "shape":
+                return t.args[0]
+        return None
+
+    n = 0
+    for e in world.table.entries:
+        if e.spec != "maker" or e.mode not in modes or not world.in_numpy_scope(e):
+            continue
+        ir = world.ir(e)
+        if ir is None or not ir.ok:
+            continue
+        terms = [x for root in (ir.made, ir.result) if root is not None for x in walk(expand(world.ev, root, ()))]
+        zips = []
+        for t in terms:
+            if t.op == "call" and t.fn.op == "ref" and t.fn.ref.qual == "builtins.zip" and len(t.args) >= 2 and not any(t is z for z in zips):
+                owners = [shape_of(a) for a in t.args]
+                plain = [o for o in owners if o is not None]
+                if len(plain) >= 2 and any(not (plain[0] is o or same(plain[0], o)) for o in plain[1:]):
+                    zips.append(t)
+        if not zips:
+            continue
+        # rank equality established somewhere in the rule: len(shape a) == len(shape b) / ndim(a) == ndim(b) in an
+        # assertion or a condition
+        def rank_eq(c):
+            if c.op != "cmp" or c.opname not in ("Eq", "NotEq"):
+                return False
+            def rank_term(v):
+                """0: not a rank; 1: the length of some sequence (a shape given as a parameter); 2: the rank of an array"""
+                if v.op == "call" and v.fn.op == "ref" and v.fn.ref.qual == "builtins.len" and len(v.args) == 1:
+                    return 2 if shape_of(v.args[0]) is not None else 1
+                if v.op == "attr" and v.name == "ndim":
+                    return 2
+                if v.op == "call" and len(v.args) == 1:
+                    r, _ = resolve_callee(world.ev, v)
+                    return 2 if (r is not None and is_numpy_callable(r) and base_name(r) == "ndim") else 0
+                return 0
+            a_, b_ = rank_term(c.l), rank_term(c.r)
+            return a_ and b_ and max(a_, b_) == 2
+
+        established = any((t.op in ("assert", "when", "if") and any(rank_eq(x) for x in walk(t.cond))) for t in terms)
+        for z in zips:
+            n += 1
+            inst = f"{construct_of(e)}|{(norm_text(z.node) if z.node is not None else str(z))[:50]}"
+            if established:
+                ctx.ob("A3.rank", inst, True, e.loc)
+            else:
+                ctx.fail("A3.rank", inst, f"{e.mode}:{e.prim_id}|zip-of-shapes", e.loc, f"`{(norm_text(z.node) if z.node is not None else str(z))[:70]}` pairs the entries of two shapes from the left and nothing in the rule establishes that the two arrays have the same rank: with prepended (broadcast) axes the pairs are shifted", "the operand with fewer dimensions than the result (axes prepended by broadcasting), with a size-1 axis that lines up - left-aligned - with a size-1 entry of the longer shape")
+    if n == 0:
+        ctx.ob("A3.rank", "no rule pairs the shapes of two different arrays entry by entry with zip()", True, "autograd/numpy/*", nontrivial=False)
